@@ -558,3 +558,43 @@ mod tests {
         assert_eq!(runtime.cancellation_count(), 0);
     }
 }
+
+/// Verification hook H3: the revision vector and cancellation count as plain integers.
+#[cfg(salsa_rs_salsa_verif)]
+pub(crate) mod verif_k {
+    use super::Runtime;
+    use crate::{Durability, Revision};
+
+    fn runtime_with(revisions: [usize; Durability::LEN]) -> Runtime {
+        let mut runtime = Runtime::default();
+        for (slot, value) in runtime.revisions.iter_mut().zip(revisions) {
+            *slot = Revision::from(value);
+        }
+        runtime
+    }
+
+    pub(crate) fn vk_last_changed_revision(
+        revisions: [usize; Durability::LEN],
+        durability: Durability,
+    ) -> usize {
+        runtime_with(revisions)
+            .last_changed_revision(durability)
+            .as_usize()
+    }
+
+    pub(crate) fn vk_report_tracked_write(
+        revisions: [usize; Durability::LEN],
+        durability: Durability,
+    ) -> [usize; Durability::LEN] {
+        let mut runtime = runtime_with(revisions);
+        runtime.report_tracked_write(durability);
+        runtime.revisions.map(|revision| revision.as_usize())
+    }
+
+    pub(crate) fn vk_bump_cancellation_count(count: u8) -> (bool, u8) {
+        let mut runtime = Runtime::default();
+        *runtime.cancellation_count.get_mut() = count;
+        let overflowed = runtime.bump_cancellation_count();
+        (overflowed, runtime.cancellation_count())
+    }
+}
